@@ -64,7 +64,7 @@ def showList (l : List Nat) : String :=
 def showEvents (evs : List Ev) : String :=
   String.join (evs.map fun e =>
     match e with
-    | .start _ t => s!"+{t} "
+    | .start _ t _ _ => s!"+{t} "
     | .stop _ t => s!"-{t} "
     | _ => "")
 
